@@ -267,7 +267,11 @@ func checkDoc(c *hx.Ctx, ci caseInfo, kept [][]int, isSub []bool) {
 				(u.top && repeats(views, pi, u, true, 10, 20)) || (u.bot && repeats(views, pi, u, false, 10, 20))
 			key := "C11/removed-unrepeated"
 			if v.charLevel {
-				key = "C11/charlevel-position-only" // F8: character-level pages are filtered by position alone
+				// was finding F8: character-level pages were filtered by position alone, so a
+				// unique marginal line on a page with a running header went with it. Repaired
+				// (the filter judges assembled lines); the key stays apart so that a
+				// regression on character-level pages names itself.
+				key = "C11/charlevel-position-only"
 			}
 			detail := ""
 			if !(u.top && legitTop) && !(u.bot && legitBot) {
